@@ -6,9 +6,18 @@
   _handle_rcmd_stdout/_stderr -> _do_output -> _flush_lines (-> _extract_rc) per arrival, the
   drain loop after the remote side closed, and _flush_output -- over the FIFO specification of
   the circular buffer (`Cbuf.Spec`) together with cbuf.c's request/growth policy
-  (`PBuf.wfd`), starting from `cbuf_create (64, 131072)`.
-  `sizeMeta` = the bookkeeping cells of the cbuf build flavour (1 shipped, 17 with assertions);
-  every theorem holds for 1 <= sizeMeta <= 800.
+  (`PBuf.wfd`), starting from `cbuf_create (RELAY_CBUF_MIN, RELAY_CBUF_MAX)` -- the arguments are
+  REGENERATED from dsh.c `_thd_init` on every run, and no theorem unfolds them.
+  `sizeMeta` = the bookkeeping cells of the cbuf build flavour (1 shipped, 17 with assertions).
+  The ONLY hypothesis about the constants is the decidable side condition `growthOk sizeMeta`
+  (Relay/Growth.lean: every growth step of cbuf.c's policy, started from the initial size, makes room
+  for the read that triggers it, and the maximum covers 128 KiB): `growthOk_generated(_assert)` prove
+  it for the regenerated constants of both build flavours; `growth_from_4096_ok`/`growth_from_1024_not_ok`
+  say which "harmless bigger initial buffer" IS harmless (4096: same even-thousands allocation sequence
+  as 64) and which is not (1024: odd thousands, last step 130999 -> 131072 gains 73 bytes for a read
+  of up to 1000); `short_growth_step_drops` shows the condition is NECESSARY (a short last step
+  overwrites unread bytes).  `pdshmodel relay growth` evaluates the same predicate in the check, which
+  pins streams around every capacity of the growth sequence (quick tier: the first and last steps).
   `script` = ANY cutting of the stream into arrivals (one handler call after each arrival;
   empty arrivals = polls that find nothing new); `S = script.flatten` is the stream itself.
   `markerOf readRc` = the return-code marker for stdout (`readRc = true`), nothing for stderr.
@@ -54,7 +63,7 @@ theorem dom_in_words (m : Option Bytes) (s : Bytes) :
     domain -- fewer than 131072 bytes whenever input remains (`Room`), hence the descriptor
     write `cbuf_write_from_fd (cb, fd, -1, &dropped)` never overwrites: dropped = 0, and it
     appends a non-empty prefix of what is available. -/
-theorem descriptor_write_never_drops {sizeMeta : Nat} (hg : growthOk sizeMeta = true)
+theorem descriptor_write_never_drops {sizeMeta : Nat}
     {b : PBuf} (hi : BufInv sizeMeta b) (avail : Bytes) (eof : Bool)
     (hroom : avail ≠ [] → b.f.q.length < 131072) :
     (PBuf.wfd b avail eof).2.1 = 0 ∧
@@ -63,6 +72,55 @@ theorem descriptor_write_never_drops {sizeMeta : Nat} (hg : growthOk sizeMeta = 
   obtain ⟨k, hw, hk0, _, hinv⟩ := wfd_fifo hi avail eof hroom
   rw [hw]
   exact ⟨rfl, k, rfl, hk0, hinv⟩
+
+/-! ### the side condition on the regenerated constants -/
+
+/-- THE REGENERATED CONSTANTS SATISFY THE SIDE CONDITION, shipped build flavour (NDEBUG: one
+    bookkeeping cell).  A `decide`d fact about named constants: when a change to dsh.c/cbuf.c makes
+    it false this theorem stops compiling (proof obligation broken) AND the check's pinned
+    boundary streams show the lost bytes on the real code. -/
+theorem growthOk_generated : growthOk Gen.CBUF_SIZE_META = true := by decide +kernel
+
+/-- ... and the build flavour with assertions (two magic cookies around the data) -/
+theorem growthOk_generated_assert : growthOk Gen.RELAY_SIZE_META_ASSERT = true := by decide +kernel
+
+/-- a 4096-byte initial buffer (harmless change C06-H2) satisfies the condition in both flavours:
+    4096+1 + 1000 rounds up to 6000, the even thousands again -/
+theorem growth_from_4096_ok : growthOkFor 4096 131072 1 = true ∧ growthOkFor 4096 131072 17 = true := by
+  decide +kernel
+
+/-- a 1024-byte initial buffer does NOT: 1024+1 + 1000 rounds up to 3000, the odd thousands; the
+    full buffer of 130999 bytes grows to 131072 -- 73 bytes -- for a read of up to 1000 -/
+theorem growth_from_1024_not_ok : growthOkFor 1024 131072 1 = false ∧
+    firstBadStep 131072 Gen.CBUF_CHUNK 1 4096 1024 = some (130999, 131072) := by decide +kernel
+
+/-- THE CONDITION IS NECESSARY.  A full buffer below its maximum whose growth step is capped at
+    the maximum and gains less than the read asks for (`hshort`) OVERWRITES unread bytes as soon
+    as the descriptor holds that much: dropped = size + request - maximum > 0 -- in the relay these
+    are bytes of a line that is within the 128 KiB of the domain. -/
+theorem short_growth_step_drops (b : PBuf) (hfull : b.f.q.length = b.f.size) (hpos : 0 < b.f.size)
+    (hmode : b.f.mode = .wrapMany) (hle : b.f.size ≤ b.f.maxsize) (hcap : b.grown.1 = b.f.maxsize)
+    (hshort : b.f.maxsize < b.f.size + min b.f.size Gen.CBUF_CHUNK)
+    (avail : Bytes) (hav : min b.f.size Gen.CBUF_CHUNK ≤ avail.length) (eof : Bool) :
+    (PBuf.wfd b avail eof).2.1 = b.f.size + min b.f.size Gen.CBUF_CHUNK - b.f.maxsize ∧
+    0 < (PBuf.wfd b avail eof).2.1 := by
+  have hc : 0 < Gen.CBUF_CHUNK := by decide
+  have hreq : wfdRequest b.f.size b.f.q.length = min b.f.size Gen.CBUF_CHUNK := by
+    simp [wfdRequest, hfull]
+  generalize hk : min b.f.size Gen.CBUF_CHUNK = k at *
+  have hk0 : 0 < k := by omega
+  have hreq0 : k ≠ 0 := by omega
+  have hne : avail.isEmpty = false := by
+    cases avail with
+    | nil => simp at hav; omega
+    | cons a r => rfl
+  have hmin : min k avail.length = k := Nat.min_eq_left hav
+  have hadm : Cbuf.Spec.admitSize b.f b.f.maxsize = true := by
+    simp [Cbuf.Spec.admitSize]; omega
+  have hnl : ¬ (k > avail.length) := by omega
+  simp only [PBuf.wfd, hreq, hreq0, ↓reduceIte, hne, Bool.false_eq_true, hmin]
+  simp [Cbuf.Spec.writeFromFd, hadm, hreq0, hmode, Cbuf.Spec.lossOk, hcap, hnl, hfull]
+  omega
 
 /-- CLOSED FORM (chunk independence in its strongest form): for every stream `S` in the domain
     and EVERY script that feeds it, the list of stdio calls is: one call `prefix ++ line` per
@@ -437,9 +495,20 @@ theorem thrc_survives_later_line_witness :
 
 /-! ### non-vacuity and sharpness -/
 
-/-- the hypotheses are satisfiable: the shipped build has sizeMeta = 1, "ab\ncd" is in the domain -/
-example : ∃ b0, mkFifoBuf 1 = some b0 ∧ Spec.Dom05 (markerOf true) [97, 98, 10, 99, 100] = true :=
-  ⟨_, rfl, by decide⟩
+/-- the hypotheses are satisfiable: the shipped build has sizeMeta = 1 and satisfies the side
+    condition, "ab\ncd" is in the domain -/
+example : ∃ b0, growthOk Gen.CBUF_SIZE_META = true ∧ mkFifoBuf Gen.CBUF_SIZE_META = some b0 ∧
+    Spec.Dom05 (markerOf true) [97, 98, 10, 99, 100] = true :=
+  ⟨_, growthOk_generated, rfl, by decide⟩
+
+/-- ... so for the code under test the theorems hold without any hypothesis about the constants:
+    e.g. losslessness of the index-level relay, shipped flavour -/
+theorem relay_lossless_index_generated (cfg : Cfg) (host t0host : Bytes) (strm : Nat) (readRc : Bool)
+    {a0 : Cbuf.Cbuf} (ha0 : mkIndexBuf Gen.CBUF_SIZE_META = some a0) (script : List Bytes)
+    (hdom : Spec.Dom05 (markerOf readRc) script.flatten = true) :
+    written (runStream indexOps cfg host t0host strm readRc a0 script).ems =
+      Spec.render (labelPrefix cfg.labels cfg.keep host) script.flatten :=
+  relay_lossless_index cfg host t0host strm readRc growthOk_generated ha0 script hdom
 
 /-- a concrete run: "ab\nc" arriving as "a", "b\nc" on host "h" is written as "h: ab\n", "h: c"
     (repaired tail form) -/
